@@ -1,6 +1,107 @@
-/- C04 — property theorems.  Stub. -/
-import CBV.Model.C04
+/-
+C04 — property theorems on M-PROP: on every edge shared by several blocks the written grading describes
+the same sequence of sections from either block (identical when the blocks traverse the edge in the same
+direction, reversed with reciprocal expansions when opposite), multi-section gradings included; the four
+edges of a chopped direction each get the chop evaluated on *their own* length (which is what makes a
+preserved first/last cell size hold on every edge); every chop a block receives by propagation descends
+from a user chop with the same count and length ratio; a direction is reported `simple` only if its four
+gradings are equal.  For every input, schedule and expansion oracle.
+Partial: that the inversion *parity* a propagated chop carries equals the geometric orientation of the
+receiving edge relative to the chopped one is not a theorem (it is checked on the written file by the
+oracle `hex:preserved-size-not-realised-at-the-same-end` and by the correspondence, whose expansion
+oracle is computed independently per geometric end).
+-/
+import CBV.Props.C01
+import CBV.Lemmas.C04Desc
 
-namespace CBV.C04
+namespace CBV.Prop
 
-end CBV.C04
+/-- shared edges: same sections when aligned, the inverted sections otherwise (to the tolerance of
+    `Grading.__eq__`) -/
+theorem T_C04_shared (inp : Inp) (st : St) (h : run inp = .ok st) (w w' : Nat)
+    (hw : w < 12 * inp.nBlocks) (hw' : w' < 12 * inp.nBlocks) (hb : w / 12 ≠ w' / 12)
+    (hp : samePair inp w w' = true) :
+    specEq (specOf st w) (if aligned inp w' w then specOf st w' else invertSpec (specOf st w')) = true := by
+  obtain ⟨hcc, hck⟩ := T_C01_checked inp st h
+  have hmem : (inp.coinc w).contains w' = true := by
+    unfold coincComplete at hcc
+    rw [List.all_eq_true] at hcc
+    have h1 := hcc w (List.mem_range.mpr hw)
+    rw [List.all_eq_true] at h1
+    have h2 := h1 w' (List.mem_range.mpr hw')
+    have hne : (w / 12 != w' / 12) = true := by simpa using hb
+    simpa [hne, hp] using h2
+  have hx : w / 4 < 3 * inp.nBlocks := by omega
+  have hc := axisConsistent_of_checkAll hck hx
+  unfold axisConsistent at hc
+  rw [Bool.and_eq_true] at hc
+  have h2 := hc.2
+  rw [List.all_eq_true] at h2
+  have m1 : w ∈ axisWires (w / 4) := by
+    unfold axisWires; simp only [List.mem_cons, List.not_mem_nil, or_false]; omega
+  have h3 := h2 w m1
+  unfold wireConsistent at h3
+  rw [List.all_eq_true] at h3
+  have h4 := h3 w' (by simpa using hmem)
+  rw [Bool.and_eq_true] at h4
+  exact h4.2
+
+/-- inverting keeps the number of sections and the total count, reverses the order, and takes the
+    reciprocal of every expansion -/
+theorem T_C04_invert (s : Spec) :
+    (invertSpec s).length = s.length ∧ count (invertSpec s) = count s ∧
+    (invertSpec s).map (·.exp) = (s.map (fun d => 1 / d.exp)).reverse ∧
+    (invertSpec s).map (·.ratio) = (s.map (·.ratio)).reverse := by
+  refine ⟨by simp [invertSpec], ?_, by simp [invertSpec, List.map_reverse, Function.comp_def],
+    by simp [invertSpec, List.map_reverse, Function.comp_def]⟩
+  unfold count invertSpec
+  simp [List.map_reverse, Function.comp_def, List.sum_reverse]
+
+/-- a chopped direction: each of the four edges carries the user's chops evaluated on that edge itself -/
+theorem T_C04_own (inp : Inp) (st : St) (h : run inp = .ok st) (x : Nat) (hx : x < 3 * inp.nBlocks)
+    (hu : userChopped inp x = true) :
+    ∀ w ∈ axisWires x, specOf st w = (inp.chops x).map (fun c => ⟨c.ratio, c.count, inp.ev c.id c.inv w⟩) := by
+  intro w hw
+  have hw4 : w / 4 = x := by
+    unfold axisWires at hw; simp only [List.mem_cons, List.not_mem_nil, or_false] at hw; omega
+  exact run_inv inp st h x hx hu w hw4
+
+/-- propagation hands on chops, it never invents them: every chop any block direction holds at the end
+    descends from a user chop with the same identity, length ratio and count -/
+theorem T_C04_descends (inp : Inp) (st : St) (h : run inp = .ok st) (x : Nat) :
+    ∀ c ∈ chopsOf st x, ∃ y, ∃ c0 ∈ inp.chops y, c.id = c0.id ∧ c.ratio = c0.ratio ∧ c.count = c0.count :=
+  run_desc inp st h x
+
+/-- a direction is written with a single expansion only if the gradings of its four edges are equal
+    (to the tolerance of `Grading.__eq__`) -/
+theorem T_C04_simple (st : St) (x : Nat) (h : isSimple st x = true) :
+    ∀ w ∈ axisWires x, w ≠ 4 * x → specEq (specOf st w) (specOf st (4 * x)) = true := by
+  intro w hw hne
+  unfold isSimple at h
+  rw [List.all_eq_true] at h
+  apply h
+  unfold axisWires at hw
+  simp only [List.mem_cons, List.not_mem_nil, or_false] at hw ⊢
+  omega
+
+/-- `Grading.__eq__` accepts only gradings with the same number of sections -/
+theorem specEq_length : ∀ (s t : Spec), specEq s t = true → s.length = t.length
+  | [], [], _ => rfl
+  | _ :: as, _ :: bs, h => by
+      simp only [specEq, Bool.and_eq_true] at h
+      simp [specEq_length as bs h.2]
+  | [], _ :: _, h => by simp [specEq] at h
+  | _ :: _, [], h => by simp [specEq] at h
+
+end CBV.Prop
+
+namespace CBV.Prop.Examples
+open CBV.Prop
+
+/-- non-vacuity of `T_C04_shared`: the two-box input runs, and its wires 5 / 16 are a shared edge -/
+example : samePair (twoBoxes 5 0) 5 16 = true ∧ (5 : Nat) / 12 ≠ 16 / 12 := by
+  constructor
+  · decide +kernel
+  · decide
+
+end CBV.Prop.Examples
